@@ -3,6 +3,7 @@
 package secmem
 
 import (
+	"io"
 	"bytes"
 	"errors"
 	"fmt"
@@ -49,6 +50,8 @@ var programs = []program{
 	{"random-readfunc-close", true, []string{"readfunc", "close"}},
 	{"new-reader-close-close", false, []string{"reader", "close", "close"}},
 	{"new-read-read-close", false, []string{"read", "readfunc", "close"}},
+	// the whole secret is read through its io.Reader in chunks, up to and including the read that reports io.EOF
+	{"new-readall-close", false, []string{"readall", "close"}},
 	// a reader is inside its callback, a Close is already waiting for it, then the reader leaves
 	{"new-reader-with-pending-close", false, []string{"pendingclose"}},
 }
@@ -210,9 +213,19 @@ func runProgramInner(impl string, p program, faults []int, randFault bool) (res 
 		return nil
 	}
 	closed := false
+	firedNow := func() int {
+		n := 0
+		for _, e := range mc.Events {
+			if e.Fault {
+				n++
+			}
+		}
+		return n
+	}
 	for si, st := range p.steps {
 		var serr error
 		ran := false
+		fired0 := firedNow()
 		switch st {
 		case "read":
 			serr = s.WithBytes(func(b []byte) error { ran = true; return check(b) })
@@ -230,6 +243,23 @@ func runProgramInner(impl string, p program, faults []int, randFault bool) (res 
 			buf := make([]byte, 16)
 			_, serr = s.NewReader().Read(buf)
 			ran = true
+		case "readall":
+			rd := s.NewReader()
+			var got []byte
+			buf := make([]byte, 20)
+			for k := 0; k < 10 && serr == nil; k++ {
+				var n int
+				n, serr = rd.Read(buf)
+				got = append(got, buf[:n]...)
+			}
+			ran = true
+			if serr == io.EOF {
+				// a bare io.EOF is how a reader says "complete, nothing went wrong" (io.ReadAll returns a nil error then)
+				serr = nil
+				if firedNow() == fired0 && data != nil && !bytes.Equal(got, data) {
+					add("c12-reader-saw-other-bytes", "reading the whole secret through its io.Reader returned %d bytes that differ from the secret", len(got))
+				}
+			}
 		case "pendingclose":
 			inCb := make(chan struct{})
 			proceed := make(chan struct{})
@@ -305,6 +335,9 @@ func runProgramInner(impl string, p program, faults []int, randFault bool) (res 
 				add("c12-read-after-close", "step %d %s on a closed secret returned no error", si, st)
 			}
 			continue
+		}
+		if serr == nil && st != "reader" && firedNow() > fired0 {
+			add("c12-fault-not-reported", "step %d %s: a memory primitive failed during the access and the caller got no error", si, st)
 		}
 		if serr != nil {
 			if strings.Contains(serr.Error(), "different bytes") {
